@@ -54,7 +54,8 @@ ObsCStep(o, e) ==
              \cup (IF was # "Disc" /\ now = "Disc" /\ ~asked /\ ~o.cfg.allow_timeouts THEN {<<"C20", "OnlyTimeouts">>} ELSE {})
     IN Flag([o EXCEPT !.cst = Put(@, c, now)], F)
 
-ObsDisc(o, e) == [o EXCEPT !.asked = Put(@, e.c, [who |-> e.who, rounds |-> 0])]
+\* a server side disconnect of an id the message layer does not list is a no-op (ok = FALSE): no session was asked to end
+ObsDisc(o, e) == IF "ok" \in DOMAIN e /\ ~e.ok THEN o ELSE [o EXCEPT !.asked = Put(@, e.c, [who |-> e.who, rounds |-> 0])]
 
 ObsSend(o, e) ==
     IF ~e.ok THEN o ELSE
